@@ -219,6 +219,8 @@ def run(algo, data, rank, n_iter_max, opts=None, seed=0, tol=None, init=None, ca
     if algo == "parafac":
         out = D.parafac(X, rank, n_iter_max=n_iter_max, init=init if init is not None else opts.pop("init", "svd"), random_state=seed,
                         return_errors=True, callback=callback, **kw, **opts)
+        if not isinstance(out, tuple):  # all modes fixed: parafac returns the bare CPTensor even with return_errors=True
+            return {"decomp": out, "errors": None}
         return {"decomp": out[0], "errors": list(out[1])}
     if algo == "nn_parafac":
         out = D.non_negative_parafac(X, rank, n_iter_max=n_iter_max, init=init if init is not None else opts.pop("init", "svd"), random_state=seed,
